@@ -14,7 +14,8 @@ from vkit import lens as L
 ID = 'C05'
 RULE = ('random axially symmetric lenses (spheres, conics, even aspheres, planes, mirrors; ideal and catalogue media; '
         'infinite/finite object; every aperture and field kind; any stop) and the bundled samples; for each, '
-        'marginal-type rays (Hy=0, Py=eps) and chief-type rays (Hy=eps, P=0) for eps = 1e-1 ... 1e-4; a case is '
+        'marginal-type rays (Hy=0, Py=eps) and chief-type rays (Hy=eps, P=0) for eps = 1e-1 ... 1e-4; a third of the random lenses '
+        'is first used (real + paraxial traces) and then edited (set_index / set_radius / set_conic / set_thickness) before the measurement; a case is '
         'non-trivial when >= 2 decades of clean (>= 20x per decade) decay were observed above the float floor; '
         'distinct = distinct spec hash')
 TIERS = {'quick': dict(shards=6, cases=45), 'thorough': dict(shards=16, cases=1200)}
@@ -51,7 +52,27 @@ def gen_case(rng, tier, i):
         if fm_ > 0:      # field list dominated by a negative field: the maximum field is the largest |field|
             spec['fields'] = [[-fm_, 0.0, 0.0], [0.0, 0.0, 0.0], [round(0.5 * fm_, 6), 0.0, 0.0]]
             info['negfields'] = True
-    return dict(kind='random', spec=spec, info=info)
+    case = dict(kind='random', spec=spec, info=info)
+    if rng.random() < 0.35:
+        # the lens is used once (real and paraxial traces), THEN edited through the public setters, then measured: whatever
+        # either tracer remembers from the first use (pupil, curvature, media) must not survive the edit
+        K = len(spec['surfaces'])
+        edits = []
+        for _ in range(int(rng.integers(1, 3))):
+            k = int(rng.integers(1, K))          # an optical surface (the image surface is K)
+            su = spec['surfaces'][k - 1]
+            kind = str(rng.choice(['index', 'radius', 'thickness', 'conic']))
+            if kind == 'index' and su.get('medium') != 'mirror':
+                edits.append(['index', k, round(float(rng.uniform(1.3, 1.95)), 6)])
+            elif kind == 'radius' and su.get('type', 'standard') == 'standard' and su.get('radius', 'inf') != 'inf':
+                edits.append(['radius', k, round(float(su['radius']) * float(rng.uniform(0.7, 1.5)), 6)])
+            elif kind == 'conic' and su.get('type', 'standard') == 'standard' and su.get('radius', 'inf') != 'inf':
+                edits.append(['conic', k, round(float(rng.uniform(-1.5, 0.5)), 6)])
+            elif kind == 'thickness' and k < K:
+                edits.append(['thickness', k, round(float(su['t']) * float(rng.uniform(0.5, 1.5)), 6)])
+        if edits:
+            case['edits'] = edits
+    return case
 
 
 def decay_ok(e, floors):
@@ -87,6 +108,15 @@ def check_case(case, rec):
         if case['info'].get('negfields'):
             rec.cls('negative-dominant-fields')
     wl = L.primary_wavelength(spec)
+    if case.get('edits'):
+        rec.cls('edited-after-first-use')
+        lens.trace_generic(0.0, 0.6, 0.0, 0.5, wl)
+        lens.paraxial.marginal_ray(); lens.paraxial.chief_ray()
+        lens.trace(0.0, 1.0, wl, 6, 'line_y')
+        for kind_, k_, v_ in case['edits']:
+            {'index': lens.set_index, 'radius': lens.set_radius, 'thickness': lens.set_thickness,
+             'conic': lens.set_conic}[kind_](v_, k_)
+            rec.event('edits_applied')
     tele = bool(spec.get('telecentric'))
     asph = any(s.get('type') == 'even_asphere' and s.get('coeffs') and s['coeffs'][0] != 0 for s in spec['surfaces'])
     if asph:
